@@ -24,6 +24,10 @@ for _p, _n in {'r=a': 8000, 'r=b': 4500, 'r=a=b': 4000, 'overlap-a:lag': 8000, '
 for _p, _n in {'r=a': 7000, 'r=b': 4000, 'r=a=b': 4000, 'a=r.T': 7000, 'b=r.T': 4000, 'overlap-a:lag': 7000, 'overlap-a:lead': 7000,
                'overlap-b:lag': 4000, 'overlap-b:lead': 4000, 's=r[i,j]': 3000}.items():
     _min['matrix-alias:' + _p] = _n
+# MdotM / MDOTM with BOTH factors aliasing the receiver in different ways (monitors matrix.double.*)
+_min['max:matrix-double-alias-combos'] = 108
+for _p in ('a=r.T,b=r', 'a=r,b=r.T', 'a=view(r),b=r', 'a=r,b=view(r)'):
+    _min['matrix-alias:' + _p] = 3500
 # the reallocation path: receiver = operand of lower derivative order than another operand
 _min.update({'scalar-recv-lower-order:r=a': 4000, 'scalar-recv-lower-order:r=b': 4000, 'scalar-recv-lower-order:t=a': 2500,
              'scalar-recv-lower-order:t=b': 2500, 'scalar-recv-lower-order:t=r': 2500})
@@ -59,7 +63,8 @@ CFG = {
             'V{add,sub,mul,div}{V,S}, MdotV, VdotM; patterns r=a, r=b, r=a=b, receiver and operand overlapping slices of one parent (operand '
             'starting before = lag / after = lead), scalar operand = element of the receiver. Matrices (dense and sparse): '
             'M{add,sub,mul,div}{M,S}, MdotM with result = left, = right, = both, operand = transpose view of the receiver, overlapping '
-            'slices, scalar operand = element of the receiver. non-trivial = the reference evaluation returned; distinct by type, operation, '
+            'slices, scalar operand = element of the receiver; MdotM/MDOTM additionally with both factors aliasing the receiver in '
+            'different ways (a = r.T() & b = r, a = r & b = r.T(), a = full-range Slice view of r & b = r, a = r & b = view). non-trivial = the reference evaluation returned; distinct by type, operation, '
             'pattern and explicit operands.',
     'min_cov': _min,
     'tolerances': 'exact policy (DESIGN.md 2.4): == on value and every derivative slot (-0 == +0, NaN == NaN, missing slots read as zero); both '
